@@ -175,6 +175,13 @@ type codeStore struct { // {{{
 	codes []uint32
 	lines []int
 	pc    int
+	data  int // pc+1 of the most recent raw data word (the batch number behind an extended SETLIST), 0 = none
+}
+
+// AddData appends a word that is an operand of the instruction before it, not an instruction.
+func (cd *codeStore) AddData(word uint32, line int) {
+	cd.Add(word, line)
+	cd.data = cd.pc
 }
 
 func (cd *codeStore) Add(inst uint32, line int) {
@@ -286,7 +293,8 @@ func (cd *codeStore) LastPC() int {
 }
 
 func (cd *codeStore) Last() uint32 {
-	if cd.pc == 0 {
+	if cd.pc == 0 || cd.pc == cd.data {
+		// (a data word must not be mistaken for the MOVE / LOADK / JMP it may happen to decode as)
 		return opInvalidInstruction
 	}
 	return cd.codes[cd.pc-1]
@@ -416,7 +424,7 @@ type funcContext struct {
 func newFuncContext(sourcename string, parent *funcContext) *funcContext {
 	fc := &funcContext{
 		Proto:           newFunctionProto(sourcename),
-		Code:            &codeStore{make([]uint32, 0, 1024), make([]int, 0, 1024), 0},
+		Code:            &codeStore{codes: make([]uint32, 0, 1024), lines: make([]int, 0, 1024)},
 		Parent:          parent,
 		Upvalues:        newVarNamePool(0),
 		Block:           newCodeBlock(newVarNamePool(0), labelNoJump, nil, nil, 0),
@@ -1482,7 +1490,7 @@ func compileTableExpr(context *funcContext, reg int, ex *ast.TableExpr, ec *expc
 			}
 			code.AddABC(OP_SETLIST, tablereg, b, c, sline(line))
 			if c == 0 {
-				code.Add(uint32(extra), sline(line))
+				code.AddData(uint32(extra), sline(line))
 			}
 		}
 	}
